@@ -12,6 +12,7 @@ the Python type of every numeric item (a float is an oracle failure).
 import QuantityModel.Proofs.Term
 import QuantityModel.Proofs.TermNormal
 import QuantityModel.Proofs.RegistryTerm
+import QuantityModel.Proofs.TermKeep
 namespace QM.Props.C07
 open QM
 
@@ -163,6 +164,15 @@ theorem normal_form_reachable (s : RegState) (h : ReachableWF s) (t : Items) :
       (∀ p ∈ l, p.2 ≠ 0) ∧ (∀ p ∈ l, (s.unitEnv.info p.1).isBase = true) :=
   normalizedItems_shape _ (keys_nonneg_registry s)
     (defsBaseOnly_of_scaleInv s (reachableWF_scaleInv h)) t
+
+/-- Building a term from the items of a (factor-free) normal form gives the same
+items again, although `Term.__init__` reduces with `keep_item_order=True`
+(keys by first occurrence) while normalisation reduces by sort key. -/
+theorem construct_from_normal_form (hk : KeysNonneg env) (l : List (Nat × Int))
+    (hl : AtomsNF env l)
+    (hnc : ∀ p ∈ l, ∀ q ∈ l, p.1 ≠ q.1 → getFactor env q.1 p.1 = none) :
+    mkTerm env (atomItems l) = atomItems l :=
+  mkTerm_fixed env hk l hl hnc
 
 /-- **Equal exactly when they denote the same thing.**  `numVal (expanded t)`
 is the rational factor of `t` and `expOf a (expanded t)` the exponent of the
